@@ -137,6 +137,43 @@ def check_c04(tier, seed):
                       cls, e["file"], e["line"], e["msg"], len(set(x["injector"] for x in es)), e["injector"], decl),
                   {"kind": "input", "failing_input": decl, "generated_function": e["injector"], "error": e["msg"], "class": cls,
                    "affected": len(es), "reproduce": "render the declaration (vlib/render.py), run `kessoku` on it, `go build ./p/`"})
+    # ---- type universe and adversarial names: one source file per case, generated and compiled separately
+    from . import typestream as TS
+    from . import render as RD
+    TM = RD.Module("c04ty%d" % seed)
+    ty_cases = 0
+    ty_bad = []
+    try:
+        cli = os.path.join(repo_dir, "kessoku")
+        items = [("ty", lbl, fn) for lbl, fn, n in TS.render_types(TM.root)]
+        items += [("nm", lbl, fn) for lbl, fn, picked in TS.render_names(TM.root, G.SplitMix64(seed * 13 + 1), nfiles=8 if tier == "quick" else 60)]
+        refused = []
+        for pkgd, lbl, fn in items:
+            ty_cases += 1
+            rc2, out2 = C.run([cli, os.path.relpath(fn, TM.root)], cwd=TM.root, extra_env=TM.env(), timeout=300)
+            if rc2 != 0:
+                refused.append((lbl, out2.strip().splitlines()[-1][:200] if out2.strip() else ""))
+        R.coverage["type_universe_refused_by_generator"] = refused
+        for pkgd in ("ty", "nm"):
+            rc3, out3 = C.run(["go", "build", "-gcflags=-e", "-o", os.devnull, "./%s/" % pkgd], cwd=TM.root, extra_env=TM.env(), timeout=1200)
+            per = collections.defaultdict(list)
+            for l in out3.splitlines():
+                m = re.match(r"^(%s/\S+?)_band\.go:(\d+):(\d+): (.*)$" % pkgd, l.strip())
+                if m:
+                    per[m.group(1)].append(m.group(4))
+            for f, msgs in sorted(per.items()):
+                lbl = [l for p2, l, fn in items if fn.endswith(os.path.basename(f) + ".go")]
+                lbl = lbl[0] if lbl else f
+                src = open(os.path.join(TM.root, f + ".go")).read()
+                ty_bad.append(lbl)
+                R.finding("type:" + lbl, "generation succeeded but the output does not compile for case '%s': %s" % (lbl, msgs[0]),
+                          {"kind": "input", "failing_input": src, "case": lbl, "errors": msgs[:5],
+                           "reproduce": "save failing_input as a file of a package with github.com/mazrean/kessoku available, run kessoku on it, go build"})
+            if rc3 != 0 and not per:
+                R.violation("package %s does not build: %s" % (pkgd, out3[-400:]), {"kind": "input", "failing_input": "type universe package", "output": out3[-2000:]})
+    finally:
+        TM.close()
+    R.coverage["type_and_name_cases"] = ty_cases
     diffs = emission_diffs(S)
     R.oblige("correspondence: text of the emitted functions = model emission (KV.planDumpE) on %d declarations" % len(S["ok"]), not diffs,
              "%d differ; first: %s" % (len(diffs), [d[1:] for d in diffs[:1]]))
@@ -146,9 +183,9 @@ def check_c04(tier, seed):
                     {"kind": "correspondence-broken", "correspondence": "KV.planDumpE vs harness/extract of *_band.go", "case": l, "model": a, "impl": b})
     nfun = len(S["extract"])
     R.samples = [{"declaration": l, "emitted": S["extract"].get("Init%d" % i)} for i, l in S["ok"][:4]]
-    R.coverage.update({"evaluations": len(S["ok"]), "distinct_nontrivial": len(set(S["extract"].values())), "programs": nfun,
+    R.coverage.update({"evaluations": len(S["ok"]) + ty_cases, "distinct_nontrivial": len(set(S["extract"].values())) + ty_cases, "programs": nfun,
                        "disagreements_checked": len(diffs), "compile_errors_by_class": {k: len(v) for k, v in byclass.items()},
-                       "rule": "seeded declarations accepted by the model, rendered with Set nesting / Value / Bind / Struct / multi-value providers, 20 injectors per file and 4 files per CLI invocation; every generated file type-checked by the real compiler (go build -gcflags=-e); distinct = distinct emitted structures"})
+                       "rule": "seeded declarations accepted by the model, rendered with Set nesting / Value / Bind / Struct / multi-value providers, 20 injectors per file and 4 files per CLI invocation; every generated file type-checked by the real compiler (go build -gcflags=-e); plus one source file per entry of the type universe (qualified, aliased imports, pointer, slice, array, map, channel, function incl. variadic, struct and interface literals, generic instances: each as injector argument, predeclared variable and result) and adversarial-name packages; distinct = distinct emitted structures + type/name cases"})
     R.assumptions = ["'compiles' is the verdict of the real Go type checker on the rendered package; Lean contains no model of go/types"]
     R.level = "proof"
     return R.finish("cd lean && lake build KV.Props.C04 && lake env lean <audit of Props/C04 theorems>", TRUSTED)
